@@ -171,6 +171,117 @@ def _namemode_templates(_):
     return res
 
 
+def _failing_recompute_job(args):
+    """Chain.force(named, recompute=True, delete_data=dele) in which the run of ONE forced task fails (raises / is interrupted):
+    whatever the recompute loop managed to do, delete_data has removed the OLD results of exactly the forced tasks - a fresh
+    chain finds, for each forced task, no result or a recomputed one, never the old one; unforced results are untouched"""
+    import tcv
+    from tcv import scratch, worlds
+
+    tcv.quiet_library()
+    n, edges = args
+    desc = dag_world(n, set(edges))
+    names = [f't{i}' for i in range(n)]
+    res = Result()
+    from tcv import refmodel
+    root = scratch.fresh('c07f')
+    w = worlds.World(desc, root)
+    try:
+        m = refmodel.Model(worlds.apply_variant(desc, 'v0'), w.modname)
+        reach = m.closure()   # reach[a]: everything a requires
+        m.depends = lambda a, b: b in reach[a]
+        for k in range(1, n + 1):
+            for named in combinations(names, k):
+                forced = set(named)
+                for t in names:
+                    if any(m.depends(t, x) for x in named):
+                        forced.add(t)
+                for failing in sorted(forced):
+                    for fault in ('raise', 'interrupt'):
+                        for dele in (True, False):
+                            base = scratch.fresh('c07fd')
+                            w.rt.reset()
+                            case = {'kind': 'failing-recompute', 'n': n, 'edges': sorted(edges)}
+                            label = f'dag {sorted(edges)}, force({list(named)}, recompute=True, delete_data={dele}), run of {failing} fails ({fault})'
+                            try:
+                                ch = w.chain('v0', base_dir=base)
+                                for t in names:
+                                    _ = ch[t].value
+                                ch2 = w.chain('v0', base_dir=base)
+                                w.rt.faults[failing.upper()] = [fault]
+                                try:
+                                    ch2.force(list(named), recompute=True, delete_data=dele)
+                                    res.violations.append(Violation('failing-recompute: the failure of a forced run is swallowed', label, case))
+                                except (worlds.Fault, worlds.Interrupt):
+                                    pass
+                                histories.Exec._detach_handlers(None)
+                                ch3 = w.chain('v0', base_dir=base)
+                                for t in names:
+                                    kind = desc['tasks'][t.upper()]['data']
+                                    had = bool(ch3[t].has_data)
+                                    gen = w.decode(ch3[t].value, kind)['gen'] if had else None
+                                    if t in forced and dele and had and gen == 0:
+                                        res.violations.append(Violation('failing-recompute: delete_data left the old result of a forced task in the store',
+                                                                        f'{label}: a fresh chain loads the OLD result of {t}', case))
+                                    if t in forced and (t == failing or m.depends(t, failing)) and had and gen != 0:
+                                        res.violations.append(Violation('failing-recompute: a task downstream of the failed run has a new result', f'{label}: {t} gen {gen}', case))
+                                    if t not in forced and not (had and gen == 0):
+                                        res.violations.append(Violation('failing-recompute: result of an unforced task touched', f'{label}: {t} has_data={had} gen={gen}', case))
+                                res.add('evaluations')
+                                res.add('transitions', 2 * n + 2)
+                            except Exception as e:  # noqa
+                                res.violations.append(Violation('failing-recompute: scenario raised', f'{label}: {type(e).__name__}: {e}', case))
+                            finally:
+                                scratch.drop(base)
+    finally:
+        w.dispose()
+        scratch.drop(root)
+    return res
+
+
+def _crash_leftover_job(kind):
+    """store states left by a forced recomputation that DIED at any file-system operation: force(task, delete_data=True) in a new
+    chain removes the stored result whatever is lying around; the next request recomputes"""
+    import tcv
+    from tcv import fsops
+    from tcv.checks import c05
+
+    tcv.quiet_library()
+    res = Result()
+    ops, snaps, final = c05._record(kind, True)
+    for k in range(len(ops) + 1):
+        sc = c05.Scenario(kind, True)
+        case = {'kind': 'crash-leftover', 'data': kind}
+        label = f'{kind}: forced recomputation dies before file operation {k}/{len(ops)} ({c05._short(ops[k][1]) if k < len(ops) else "none: completes"}), then a new chain forces t with delete_data=True'
+        try:
+            ch = sc.prepare()
+            r = sc.target(ch, fsops.FS(sc.base, crash_at=k if k < len(ops) else None))
+            if r != ('crash' if k < len(ops) else 'ok'):
+                res.harness_errors.append(f'{label}: crash did not fire ({r})')
+                continue
+            histories.Exec._detach_handlers(None)
+            w = sc.w
+            ch2 = w.chain('v0', base_dir=sc.base)
+            ch2.force('t', delete_data=True)
+            ch3 = w.chain('v0', base_dir=sc.base)
+            if ch3['t'].has_data:
+                res.violations.append(Violation('crash-leftover: delete_data does not remove the stored result', f'{label}: a fresh chain still finds a result for t', case))
+            if not ch3['u'].has_data:
+                res.violations.append(Violation('crash-leftover: delete_data removed the result of an unforced task', label, case))
+            mark = len(w.rt.log)
+            p = w.decode(ch3['t'].value, kind)
+            ran = [x[0] for x in w.rt.log[mark:]]
+            if ran != ['t'] or p['term'] != sc.model.term('t'):
+                res.violations.append(Violation('crash-leftover: request after delete_data does not recompute exactly the forced task', f'{label}: ran {ran}', case))
+            res.add('evaluations')
+            res.add('transitions', k + 3)
+        except Exception as e:  # noqa
+            res.violations.append(Violation('crash-leftover: scenario raised', f'{label}: {type(e).__name__}: {str(e)[:300]}', case))
+        finally:
+            sc.close()
+    return res
+
+
 def _fwd(n):
     return list(range(n))
 
@@ -192,6 +303,11 @@ def run(tier, seed):
         res.merge(r)
     res.coverage['part_a_dags'] = len(jobs)
     res.merge(_namemode_templates(None))
+    fjobs = [(n, tuple(sorted(es))) for n in (range(1, 4) if tier == 'quick' else range(1, 5)) for es in all_dags(n)]
+    for r in pmap(_failing_recompute_job, fjobs):
+        res.merge(r)
+    for r in pmap(_crash_leftover_job, ['dir', 'continues', 'json', 'list_of_numpy'] if tier == 'quick' else ['dir', 'continues', 'json', 'list_of_numpy', 'numpy', 'pandas', 'generator', 'generator_lazy']):
+        res.merge(r)
     # forcing by name / task object / one-shot iterable in chains that hold shared task objects under other namespaces
     from tcv.checks import c13
     for sig, what in c13.namespace_scenarios():
@@ -260,6 +376,10 @@ def replay(case):
     import tcv
 
     tcv.quiet_library()
+    if case.get('kind') == 'failing-recompute':
+        return _failing_recompute_job((case['n'], tuple(tuple(e) for e in case['edges']))).violations
+    if case.get('kind') == 'crash-leftover':
+        return _crash_leftover_job(case['data']).violations
     if case.get('kind') == 'shared-forcing':
         from tcv.checks import c13
         return [Violation(f'shared tasks: {sig}', what, case) for sig, what in c13.namespace_scenarios() if sig.startswith('forc')]
